@@ -73,6 +73,58 @@ pub fn gen_attack_cfg(seed: u64, k: u64, n: usize, c_is_eval: bool, ands: usize)
     AttackCfg { base, c: corrupted }
 }
 
+/// n = 3; the AND gates combine inputs of the two honest parties only, and two of the three outputs do
+/// not depend on the corrupted party at all: no substitution of the corrupted input explains a change
+/// of those outputs, so every unnoticed tampering with a gate or a triple shows.
+pub fn honest_and_cfg(seed: u64, k: u64, c_is_eval: bool) -> AttackCfg {
+    let mut rng = entropy::rng(seed, 0xa77ad, k);
+    let n = 3;
+    let p_eval = rng.random_range(0..n);
+    let corrupted = if c_is_eval {
+        p_eval
+    } else {
+        let others: Vec<usize> = (0..n).filter(|p| *p != p_eval).collect();
+        others[rng.random_range(0..others.len())]
+    };
+    let hs: Vec<usize> = (0..n).filter(|p| *p != corrupted).collect();
+    let (h1, h2) = (hs[0], hs[1]);
+    let mut insts: Vec<String> = vec![];
+    for p in 0..n {
+        for b in 0..2 {
+            insts.push(format!("i{p}.{b}>{}", 2 * p + b));
+        }
+    }
+    insts.push(format!("a{},{}>6", 2 * h1, 2 * h2));
+    insts.push(format!("a{},{}>7", 2 * h1 + 1, 2 * h2 + 1));
+    insts.push(format!("a{},{}>8", 2 * h1, 2 * h2 + 1));
+    insts.push(format!("a{},{}>9", 2 * h1 + 1, 2 * h2));
+    insts.push(format!("x8,{}>10", 2 * corrupted));
+    insts.push("n9>11".to_string());
+    let circ = CircSpec { inputs: vec![2; n], insts, outs: vec![6, 7, 10, 11], max_reg: 12, and_ops: 4 };
+    let inputs: Vec<String> = (0..n).map(|_| circ::bits_to_string(&[rng.random(), rng.random()])).collect();
+    let base = MpcSpec {
+        circ,
+        inputs,
+        p_eval,
+        p_out: (0..n).collect(),
+        tmp: vec![false; n],
+        cap: 0,
+        seed: rng.random(),
+        sched: SchedSpec {
+            strategy: if rng.random_bool(0.5) { Strategy::Uniform } else { Strategy::EagerDelivery },
+            seed: rng.random(),
+            explicit: vec![],
+        },
+        faults: vec![],
+        taps: vec![],
+        adversary: None,
+        crash: None,
+        send_to_closed_errs: true,
+        overrides: vec![],
+    };
+    AttackCfg { base, c: corrupted }
+}
+
 fn output_is_interesting(c: &polytune::garble_lang::register_circuit::Circuit) -> bool {
     // the truth table over all inputs is neither constant nor affine in any single party's bits:
     // approximated by "some output differs between two inputs and the circuit has an AND on the
